@@ -152,6 +152,13 @@ class SimBus(EventBus):
             self._w.fwd_src = self.name
         return await super().execute_handler(event, handler, timeout)
 
+    async def _default_wal_handler(self, event):
+        # the line is serialised first thing in the handler (no suspension point before model_dump_json()): mark the instant,
+        # several WAL writes of different buses can be in flight at once
+        if self.wal_path:
+            self._w.rec('wal_begin', self.name, self._w.names.get(event.event_id, '?'))
+        return await super()._default_wal_handler(event)
+
     def cleanup_event_history(self):
         w = self._w
         before = [(w.names.get(i, '?'), e.event_status) for i, e in self.event_history.items()]
